@@ -39,6 +39,10 @@ type concParams struct {
 	Faults []faultSpec `json:"faults,omitempty"`
 	// Rev: second base schedule (vsched.Options.ReverseOthers) inside the concurrent window.
 	Rev bool `json:"rev,omitempty"`
+	// WQ/WT: search with the weighted cost model (preemption 2, choice at a blocking point 1)
+	// and this budget in the quick / thorough tier, in addition to the plain bounds.
+	WQ int `json:"wq,omitempty"`
+	WT int `json:"wt,omitempty"`
 }
 
 // linInput / linOutput are the porcupine operation payloads.
